@@ -1,22 +1,38 @@
 #!/bin/bash
-# Runs every confirmed seeded mutant against its property's check (on a scratch copy of /repo)
+# Runs every confirmed seeded mutant against its property's check (on scratch copies of /repo, JOBS in parallel)
 # and writes /verif/seeded/RESULTS.md.  Development aid, not a manifest check.
+# usage: seed_matrix.sh [jobs]      env: CTVERIF_BIN (default /verif/bin/ctverif)
 cd /verif
+J=${1:-4}
+BIN=${CTVERIF_BIN:-/verif/bin/ctverif}
 out=seeded/RESULTS.md
-echo "# Seeded mutants vs. checks ($(date -u +%F), /repo $(git -C /repo rev-parse --short HEAD), /verif $(git rev-parse --short HEAD))" > $out
-echo >> $out
-echo "| mutant | result | first violated obligation |" >> $out
-echo "|---|---|---|" >> $out
-for d in seeded/C*-*/; do
-  s=$(basename $d); p=${s%-*}
-  res=$(MUT_LINES=4 tools/mut.sh $p /verif/$d/patch.diff 2>&1)
+tmp=$(mktemp -d /tmp/ctv-sm.XXXXXX)
+one() {
+  d=$1; s=$(basename $d); p=${s%-*}; slot=$2
+  res=$(MUT_DIR=/tmp/ctv-mut-$slot CTVERIF_BIN=$BIN MUT_LINES=4 tools/mut.sh $p /verif/$d/patch.diff 2>&1)
   if echo "$res" | grep -q "^VIOLATION"; then
     key=$(echo "$res" | grep -m1 "rule=" | sed 's/.*key=\([^ ]*\) at.*/\1/' | cut -c1-150)
-    echo "| $s | caught by $p | \`$key\` |" >> $out
+    echo "| $s | caught by $p | \`$key\` |"
   elif echo "$res" | grep -q "obligations"; then
-    echo "| $s | **MISSED** by $p | |" >> $out
+    echo "| $s | **MISSED** by $p | |"
   else
-    echo "| $s | patch/compile problem: $(echo "$res" | head -1 | cut -c1-80) | |" >> $out
+    echo "| $s | patch/compile problem: $(echo "$res" | head -1 | cut -c1-80) | |"
   fi
+}
+export -f one; export BIN
+ls -d seeded/C*-*/ | sed 's|/$||' > $tmp/all
+split -n l/$J -d $tmp/all $tmp/chunk.
+for c in $tmp/chunk.*; do
+  slot=${c##*.}
+  ( while read d; do one $d $slot; done < $c > $c.out ) &
 done
-cat $out
+wait
+{
+  echo "# Seeded mutants vs. checks ($(date -u +%F), /repo $(git -C /repo rev-parse --short HEAD), /verif $(git rev-parse --short HEAD))"
+  echo
+  echo "| mutant | result | first violated obligation |"
+  echo "|---|---|---|"
+  cat $tmp/chunk.*.out | sort
+} > $out
+rm -rf $tmp /tmp/ctv-mut-[0-9]*
+grep -c "caught" $out
